@@ -486,4 +486,168 @@ theorem Closed.aligned_eq {win} {s : St} (h : Closed win s) :
   have : k < p := List.mem_range.mp hk
   rw [h.core.feats k (by omega)]
 
+/-! ## monotonicity of the search log (exported for the composed frame-accounting theorem of C03) -/
+
+/-- on an open utterance the search log has one entry per output frame -/
+theorem Open.searched_len {win} {s : St} (h : Open win s) : s.searched.length = s.outputFrame := by
+  rw [h.srch]; simp
+
+theorem Closed.searched_len {win} {s : St} (h : Closed win s) : s.searched.length = s.outputFrame := by
+  rw [h.srch]; simp
+
+/-- `acmod_process_raw` does not move the output frame -/
+theorem processRaw_outFrame (win : Nat) (skip : Nat → Bool) (s : St) (rs : List FeResp) (h : Open win s)
+    (hb : s.cmnFrames + offered rs ≤ cmnWinHwm) (hw : 3 * win + 1 ≤ livebuf) :
+    (processRaw true win skip s rs).st.outputFrame = s.outputFrame := by
+  rcases h.inv with hs | ⟨c, hp⟩
+  · obtain ⟨mb, a, rest, more, e, hm, ha, hlen⟩ := processRaw_fe true win skip s 0 rs hs.mfc h.mfc0
+    have hsfe : SInv win { s with mfcBuf := mb, nextId := 0 + a, nMfcFrame := a } :=
+      ⟨hs.core.setFe _ _ _, hs.st, hm, hs.out0⟩
+    rw [e]
+    by_cases ha0 : a = 0
+    · exact (processMfcbuf_start0 win skip _ hsfe (by simp only []; exact ha0)).2.2.outFrame
+    · exact (processMfcbuf_start win skip _ hsfe (by simp only []; omega) (by simp only []; omega) hw).2.2.outFrame
+  · obtain ⟨mb, a, rest, more, e, hm, ha, hlen⟩ := processRaw_fe true win skip s c rs hp.mfc h.mfc0
+    have hsfe : PInv win { s with mfcBuf := mb, nextId := c + a, nMfcFrame := a } c :=
+      ⟨hp.core.setFe _ _ _, hp.live.of_eq rfl rfl rfl, hp.st, hp.c1, hm⟩
+    rw [e]
+    exact (processMfcbuf_mid win skip _ c hsfe (by simp only []; omega) hw).2.2.outFrame
+
+theorem searchForward_outFrame (win : Nat) (s : St) (h : Open win s) : s.outputFrame ≤ (searchForward s).outputFrame := by
+  obtain ⟨c, hc, _⟩ := h.core
+  rw [searchForward_spec s hc.qinv h.srch]
+  exact Nat.le_add_right _ _
+
+theorem decLoop_outFrame (win : Nat) (skip : Nat → Bool) (ns : Bool) (hw : 3 * win + 1 ≤ livebuf) :
+    ∀ (fuel : Nat) (s : St) (rs : List FeResp), Open win s → s.cmnFrames + offered rs ≤ cmnWinHwm → rs.length < fuel →
+    s.outputFrame ≤ (decLoop true win skip ns fuel s rs).outputFrame := by
+  intro fuel
+  induction fuel with
+  | zero => intro s rs _ _ hf; omega
+  | succ fuel ih =>
+    intro s rs h hb hf
+    obtain ⟨p1, p2, p3⟩ := processRaw_open win skip s rs h hb hw
+    have p4 := processRaw_outFrame win skip s rs h hb hw
+    have hs' : Open win (if ns then (processRaw true win skip s rs).st else searchForward (processRaw true win skip s rs).st) ∧
+        (if ns then (processRaw true win skip s rs).st else searchForward (processRaw true win skip s rs).st).cmnFrames =
+          (processRaw true win skip s rs).st.cmnFrames ∧
+        s.outputFrame ≤ (if ns then (processRaw true win skip s rs).st else searchForward (processRaw true win skip s rs).st).outputFrame := by
+      cases ns with
+      | true => exact ⟨p1, rfl, by simp only [if_true]; omega⟩
+      | false =>
+        have := search_open win _ p1
+        have hmono := searchForward_outFrame win _ p1
+        exact ⟨this.1, this.2, by simp only [Bool.false_eq_true, if_false]; omega⟩
+    simp only [decLoop]
+    by_cases hmore : (processRaw true win skip s rs).more = true
+    · rw [if_pos hmore]
+      have hlen : (processRaw true win skip s rs).rest.length < fuel := by
+        rcases p3 with h1 | ⟨_, h2⟩
+        · omega
+        · rw [h2] at hmore; exact absurd hmore (by decide)
+      have := ih _ (processRaw true win skip s rs).rest hs'.1 (by rw [hs'.2.1]; omega) hlen
+      omega
+    · rw [if_neg hmore]
+      exact hs'.2.2
+
+/-- the output frame (= number of search steps so far) never decreases across an API call on an open utterance -/
+theorem step_outFrame_mono (win : Nat) (skip : Nat → Bool) (s : St) (op : Op) (h : Open win s) (hnf : op.isFull = false)
+    (hb : s.cmnFrames + offeredOps [op] ≤ cmnWinHwm) (hw : 3 * win + 1 ≤ livebuf) :
+    s.outputFrame ≤ (step true win skip s op).outputFrame := by
+  cases op with
+  | process ns rs =>
+    have hst : ¬ s.state = .ended := by
+      rcases h.state with e | e <;> rw [e] <;> decide
+    have hni : ¬ s.state = .idle := by
+      rcases h.state with e | e <;> rw [e] <;> decide
+    simp only [offeredOps, Nat.add_zero] at hb
+    simp only [step, hst, if_false, decProcess, hni]
+    have hg : Open win (if ns then setGrow s true else s) ∧ (if ns then setGrow s true else s).cmnFrames = s.cmnFrames ∧
+        (if ns then setGrow s true else s).outputFrame = s.outputFrame := by
+      cases ns with
+      | true =>
+        have := setGrow_open h
+        refine ⟨this.1, this.2, ?_⟩
+        simp only [if_true, setGrow, Bool.true_and]
+        split <;> rfl
+      | false => exact ⟨h, rfl, rfl⟩
+    by_cases he : rs.isEmpty = true
+    · rw [if_pos he, hg.2.2]; exact Nat.le_refl _
+    · rw [if_neg he]
+      have := decLoop_outFrame win skip ns hw (rs.length + 1) _ rs hg.1 (by rw [hg.2.1]; exact hb) (by omega)
+      omega
+  | processFull ns rs => simp [Op.isFull] at hnf
+  | query => exact Nat.le_refl _
+  | align steps =>
+    cases steps with
+    | none => exact Nat.le_refl _
+    | some upto =>
+      obtain ⟨c, hc, _⟩ := h.core
+      simp only [step]
+      rw [alignPass_spec s upto hc.qinv]
+      exact Nat.le_refl _
+
+/-- the number of first-pass search steps logged never decreases across an API call: the return value of
+    `decoder_process_*` can be read off as the difference of the log lengths -/
+theorem step_searched_mono (win : Nat) (skip : Nat → Bool) (s : St) (op : Op) (h : Open win s) (hnf : op.isFull = false)
+    (hb : s.cmnFrames + offeredOps [op] ≤ cmnWinHwm) (hw : 3 * win + 1 ≤ livebuf) :
+    s.searched.length ≤ (step true win skip s op).searched.length := by
+  rw [h.searched_len, (step_open win skip s op h hnf hb hw).1.searched_len]
+  exact step_outFrame_mono win skip s op h hnf hb hw
+
+theorem decEnd_outFrame_mono (win : Nat) (skip : Nat → Bool) (s : St) (tail : Bool) (h : Open win s)
+    (hfe : tail = true ∨ s.nextId = 0) (hb : s.cmnFrames + (if tail then 1 else 0) ≤ cmnWinHwm)
+    (hw : 3 * win + 2 ≤ livebuf) : s.outputFrame ≤ (decEnd true win skip s tail).outputFrame := by
+  have hcl := decEnd_closed win skip s tail h hfe hb hw
+  -- after the end every delivered frame has been searched; before it at most `nextId - win` of them
+  have h1 := hcl.core.cnt
+  have h2 := hcl.nff
+  obtain ⟨c, hc, hm⟩ := h.core
+  have h3 := hc.cnt
+  have h4 := hm.next
+  have h5 := h.mfc0
+  -- `nextId` does not decrease across `decoder_end_utt`
+  have hnext : s.nextId ≤ (decEnd true win skip s tail).nextId := by
+    have hst : ¬ (s.state = .ended ∨ s.state = .idle) := by
+      rcases h.state with e | e <;> rw [e] <;> decide
+    obtain ⟨a1, a2, a3, a4⟩ := acmodEndUtt_closed win skip s tail h hfe hb hw
+    have hq : QInv (acmodEndUtt true win skip s tail) :=
+      ⟨a1.nofault, a1.fbLen, a1.outIdx, by have := a1.cnt; have := a1.room; omega⟩
+    have e := searchForward_spec _ hq a3
+    have hN : (decEnd true win skip s tail).nextId = (acmodEndUtt true win skip s tail).nextId := by
+      unfold decEnd; rw [if_neg hst, e]
+    rw [hN]
+    rcases h.inv with hs | ⟨c', hp⟩
+    · have := hs.mfc.next; omega
+    · -- PROCESSING: the tail frame is added
+      have hc1 := hp.c1
+      have hn' := hp.mfc.next
+      have htail : tail = true := by
+        rcases hfe with h1 | h1
+        · exact h1
+        · omega
+      subst htail
+      have hb1 : s.cmnFrames + 1 ≤ cmnWinHwm := by simpa using hb
+      obtain ⟨mb, ee, hmm⟩ := endFe_spec { s with state := .ended } c' true (hp.mfc.setState _) h.mfc0
+      simp only [if_true] at ee hmm
+      obtain ⟨q1, q2, q3, q4, q5⟩ := processMfcbuf_end win skip
+        { s with state := .ended, mfcBuf := mb, nextId := c' + 1, nMfcFrame := 1 } c'
+        ((hp.core.setFe mb (c' + 1) 1).setState _) (hp.live.of_eq rfl rfl rfl) hc1 rfl
+        ⟨hmm.len, hmm.out, hmm.cnt, hmm.next, hmm.frames⟩ (by have := hmm.out; simp only [] at this ⊢; omega)
+        (by simp only []; omega) (by simp only []; omega)
+      simp only [] at q5
+      have hws : decide (s.state = UState.started) = false := by simp [hp.st]
+      have hs' : acmodEndUtt true win skip s true =
+          (processMfcbuf true win skip { s with state := .ended, mfcBuf := mb, nextId := c' + 1, nMfcFrame := 1 }).st := by
+        simp only [acmodEndUtt, ee, hws, Bool.and_false, if_false, Bool.false_eq_true]
+        rw [if_pos (by decide)]
+      rw [hs', q5]; omega
+  omega
+
+theorem decEnd_searched_mono (win : Nat) (skip : Nat → Bool) (s : St) (tail : Bool) (h : Open win s)
+    (hfe : tail = true ∨ s.nextId = 0) (hb : s.cmnFrames + (if tail then 1 else 0) ≤ cmnWinHwm)
+    (hw : 3 * win + 2 ≤ livebuf) : s.searched.length ≤ (decEnd true win skip s tail).searched.length := by
+  rw [h.searched_len, (decEnd_closed win skip s tail h hfe hb hw).searched_len]
+  exact decEnd_outFrame_mono win skip s tail h hfe hb hw
+
 end SSVerif.AcmodBuf
